@@ -187,3 +187,119 @@ func VerifC09Recorded() {
 		vrt.Reach("c09/recorded/refused")
 	}
 }
+
+// c01CapConn: a driver connection that only notes whether an undo-log row was written.
+type c01CapConn struct {
+	driver.Conn
+	inserts int
+}
+
+type c01CapStmt struct {
+	driver.Stmt
+	c *c01CapConn
+}
+
+func (c *c01CapConn) Prepare(q string) (driver.Stmt, error) { return &c01CapStmt{c: c}, nil }
+func (s *c01CapStmt) Exec(args []driver.Value) (driver.Result, error) {
+	s.c.inserts++
+	return driver.RowsAffected(1), nil
+}
+func (s *c01CapStmt) Close() error { return nil }
+
+// VerifC01TwoStatements: two statements in one local transaction of the branch (3
+// first × 5 second forms over the same or other rows, as in VerifC03TwoStatements);
+// whether an undo-log row exists is decided by the real FlushUndoLog, its content is
+// the recorded images; the real rollback must take the table back to what it was.
+func VerifC01TwoStatements() {
+	firsts := []c18Stmt{
+		{"update-by-key", "UPDATE t SET a = ? WHERE id = ?", 2, true, false, map[int]int64{1: 10}},
+		{"delete-by-key", "DELETE FROM t WHERE id = ?", 1, true, false, map[int]int64{0: 20}},
+		{"insert-one", "INSERT INTO t (id, a, b) VALUES (?, ?, ?)", 3, true, false, map[int]int64{0: 30}},
+	}
+	seconds := []c18Stmt{
+		{"update-same-row", "UPDATE t SET b = ? WHERE id = 10", 1, true, false, nil},
+		{"update-no-row", "UPDATE t SET b = ? WHERE id = 77", 1, true, false, nil},
+		{"delete-other-row", "DELETE FROM t WHERE id = 20", 0, true, false, nil},
+		{"delete-inserted-row", "DELETE FROM t WHERE id = 30", 0, true, false, nil},
+		{"insert-another", "INSERT INTO t (id, a, b) VALUES (40, ?, ?)", 2, true, false, nil},
+	}
+	c18WantNull = false
+	w := c18Setup(false)
+	s := uSchemas[0]
+	var initial []uRow
+	for _, r := range w.d.rows {
+		if r.present {
+			cells := make([]driver.Value, len(r.cells))
+			for k := range r.cells {
+				cells[k] = r.get(k)
+			}
+			initial = append(initial, uRow{cells: cells, present: true})
+		}
+	}
+	f, g := firsts[vrt.Choice("first", len(firsts))], seconds[vrt.Choice("second", len(seconds))]
+	name := f.name + "+" + g.name
+	tx, err := w.c.BeginTx(w.ctx, driver.TxOptions{})
+	vrt.Assert(err == nil && tx != nil, "c01/two/begin-ok")
+	changed := false
+	for k, st := range []c18Stmt{f, g} {
+		_, err = w.c.ExecContext(w.ctx, st.query, c18ArgsTagged(st, []string{"", "second."}[k]))
+		if err != nil || w.d.bad != "" {
+			return // a statement the database rejects (duplicate key ...): not this entry's subject
+		}
+		changed = changed || len(w.d.changedBefore) > 0 || len(w.d.changedAfter) > 0
+	}
+	if !changed {
+		return
+	}
+	befores, afters := w.c.txCtx.RoundImages.BeofreImages(), w.c.txCtx.RoundImages.AfterImages()
+	var logs []undo.SQLUndoLog
+	for i := 0; i < len(befores) || i < len(afters); i++ {
+		var l undo.SQLUndoLog
+		if i < len(befores) && befores[i] != nil {
+			l.TableName, l.SQLType, l.BeforeImage = befores[i].TableName, befores[i].SQLType, befores[i]
+		} else if i < len(afters) && afters[i] != nil {
+			l.TableName, l.SQLType = afters[i].TableName, afters[i].SQLType
+		}
+		if i < len(afters) {
+			l.AfterImage = afters[i]
+		}
+		logs = append(logs, l)
+	}
+	xid, branchID := "xid-1", int64(7)
+	w.c.txCtx.XID, w.c.txCtx.BranchID = xid, uint64(branchID)
+	uw := uSetup(s, &undo.BranchUndoLog{Xid: xid, BranchID: uint64(branchID), Logs: logs}, xid, branchID)
+	undo.UndoConfig.DataValidation = vrt.Bool("dataValidation")
+	// phase one's flush: does the branch get an undo-log row at all?
+	capc := &c01CapConn{}
+	mgr, merr := undo.GetUndoLogManager(w.c.txCtx.DBType)
+	vrt.Assert(merr == nil, "c01/two/undo-manager")
+	if merr != nil {
+		return
+	}
+	ferr := mgr.FlushUndoLog(w.c.txCtx, capc)
+	vrt.Assert(ferr == nil, "c01/two/flush-ok/"+name)
+	vrt.Assert(capc.inserts <= 1, "c01/two/at-most-one-undo-log-row/"+name)
+	if capc.inserts > 0 {
+		uw.addUndoLog()
+	} else {
+		vrt.Reach("c01/two/no-undo-log-row")
+	}
+	for _, r := range w.d.rows {
+		if r.present {
+			cells := make([]driver.Value, len(r.cells))
+			for k := range r.cells {
+				cells[k] = r.get(k)
+			}
+			uw.d.rows = append(uw.d.rows, uRow{cells: cells, present: true})
+		}
+	}
+	stt, rerr, panicked := uw.rollback()
+	vrt.Reach("c01/two/" + name)
+	vrt.Observe("stub.bad", uw.d.bad)
+	vrt.Assert(!panicked && uw.d.bad == "", "c01/two/no-panic/"+name)
+	if panicked || uw.d.bad != "" {
+		return
+	}
+	vrt.Assert(rerr == nil && stt == branch.BranchStatusPhasetwoRollbacked, "c01/two/rollbacked/"+name)
+	vrt.Assert(uSameTable(s, uw.d.rows, initial), "c01/two/table-restored/"+name)
+}
